@@ -9,7 +9,10 @@ Open Scope N_scope.
 Inductive outcome := OMesh (m : mesh) | ODeclared | OCrash | OHang.          (* what ply.ReadMesh did *)
 Inductive wres := WFile (f : plyfile) | WDeclared | WCrash.                   (* what MeshWriter.Write did *)
 Inductive case :=
-| CW (o : wopts) (m : wmesh) (wa wl wb : wres) (oa ol ob : outcome).          (* ascii, little, big *)
+| CW (o : wopts) (m : wmesh) (wa wl wb : wres) (oa ol ob : outcome)           (* ascii, little, big *)
+(* the two binary encodings alone: emitted next to a CW case that carries a known-finding key (both known
+   findings are ASCII-only), so that every other failure on such a mesh stays visible *)
+| CWbin (o : wopts) (m : wmesh) (wl wb : wres) (ol ob : outcome).
 
 (* ================= model vs implementation ================= *)
 Definition tok_eqb (a b : tok) : bool :=
@@ -55,6 +58,7 @@ Definition corr_one (o : wopts) (m : wmesh) (f : fmt) (w : wres) (out : outcome)
 Definition corr_ok (c : case) : bool :=
   match c with CW o m wa wl wb oa ol ob =>
     corr_one o m ASCII wa oa && corr_one o m BinLE wl ol && corr_one o m BinBE wb ob
+  | CWbin o m wl wb ol ob => corr_one o m BinLE wl ol && corr_one o m BinBE wb ob
   end.
 
 (* ================= the property itself, on the implementation's output ================= *)
@@ -165,4 +169,7 @@ Definition prop_ok (c : case) : bool :=
     roundtrip_okb o m oa && roundtrip_okb o m ol && roundtrip_okb o m ob
     && outcomes_agree oa ol && outcomes_agree ol ob
     && header_okb m ASCII wa && header_okb m BinLE wl && header_okb m BinBE wb
+  | CWbin o m wl wb ol ob =>
+    roundtrip_okb o m ol && roundtrip_okb o m ob && outcomes_agree ol ob
+    && header_okb m BinLE wl && header_okb m BinBE wb
   end.
